@@ -74,8 +74,25 @@ func NewRequest(stdr *http.Request) (*Request, error) {
 	}
 
 	r := &Request{Request: stdr}
-	r.realIP = realip.FromRequest(stdr)
+	r.realIP = realIPOf(stdr)
 	return r, nil
+}
+
+// realIPOf extracts the client address. X-Forwarded-For may arrive as several
+// header lines (a proxy that adds its own line instead of appending to the
+// existing one); by RFC 7230 section 3.2.2 that is the same as one
+// comma-separated list, but realip.FromRequest only reads the first line.
+func realIPOf(stdr *http.Request) string {
+	const xff, xri = "X-Forwarded-For", "X-Real-Ip"
+	lines := stdr.Header.Values(xff)
+	if len(lines) <= 1 {
+		return realip.FromRequest(stdr)
+	}
+	h := http.Header{xff: []string{strings.Join(lines, ", ")}}
+	if v := stdr.Header.Get(xri); v != "" {
+		h.Set(xri, v)
+	}
+	return realip.FromRequest(&http.Request{RemoteAddr: stdr.RemoteAddr, Header: h})
 }
 
 // IsStream returns whether the payload of the request is a stream.
